@@ -60,4 +60,4 @@ def run(ctx):
         "the abstract disk (Feox.Proto.Disk) is related to bytes by the Lean reader Feox.Fmt.recoverImage, itself compared with the real recovery on every crash image of this run",
         "faults are injected at the I/O hook (synchronous path; io_uring disabled), not in the kernel",
         "recovery cuts on TTL devices with several generations per key (expired / live / no expiry at recovery time, built by copying a real record to a free block): every write of recovery's own trace is a cut, with all issued writes landed or only the fsynced ones plus a random subset; one device per process with more than 1024 separate extents to retire (expired keys interleaved with live ones, the lowest expired winner has an older generation in the last block), cut at every journal write and a sample of the marker writes",
-    ], lambda op: op.startswith("fmt recover"), pre_finish=reccut_stage)
+    ], lambda op: op.startswith("fmt recover") or op.startswith("txn "), pre_finish=reccut_stage)
